@@ -144,7 +144,16 @@ def obsA (tr : Trace) : String :=
     body saw, `$?` and table at the second `imark` (inner list undone or persisted) -/
 def observeCmd (ct : CmdTrace) : String :=
   match ct.inner with
-  | none => s!"D={obsD ct.tr} A={obsA ct.tr}"
+  | none =>
+    match ct.io, ct.tr.during with
+    | some r, some (wd, td) =>
+      -- `put` / `get`: the table the built-in saw, then what it reported
+      let res := match r with
+        | .wrote ok => s!"p{if ok then 1 else 0}"
+        | .got none _ => "ge"
+        | .got (some bs) tainted => if tainted then "gT" else s!"g{hexOf bs}"
+      s!"D={showSnap wd td}|{res} A={obsA ct.tr}"
+    | _, _ => s!"D={obsD ct.tr} A={obsA ct.tr}"
   | some (wi, ti, tri) =>
     -- an interrupted inner command (interactive shell) skips the rest of the outer body: no second `imark`
     let second := if ct.innerInterrupted then "-" else obsA tri
@@ -166,6 +175,15 @@ def parseCmds : List String → Option (List Cmd)
   | kind :: redirs :: rest => do
     let items := (splitTrim redirs ";").filter (· ≠ "")
     let more ← parseCmds rest
+    -- `put<fd>.<byte>` / `get<fd>.<count>`
+    let ioKind : Option (Bool × Nat × Nat) :=
+      if kind.startsWith "put" || kind.startsWith "get" then
+        match (String.ofList (kind.toList.drop 3)).splitOn "." with
+        | [a, b] => do pure (kind.startsWith "put", ← a.toNat?, ← b.toNat?)
+        | _ => none
+      else none
+    if let some (wr, fd, arg) := ioKind then
+      pure (.io wr fd arg (← items.mapM parseRedir) :: more) else
     match parseNestKind kind with
     | some ki =>
       let (o, i) := splitNest items
